@@ -173,7 +173,7 @@ C05_Credits ==
 
 \* ---- C06: allotments split exactly (corpus: one allotment on one side, distinct accounts)
 C06_Shares ==
-  /\ Check("C06", "source shares differ", SendOk => \A a \in Names(chk.obs, 1) \cup PairNames(chk.sp.d.snd) : SumWhere(chk.obs, 1, a) = SndDebits(chk.sp.d.snd, a))
+  /\ Check("C06", "source shares differ", (SendOk /\ KeptOf(chk.sp.d.rcv) = 0) => \A a \in Names(chk.obs, 1) \cup PairNames(chk.sp.d.snd) : SumWhere(chk.obs, 1, a) = SndDebits(chk.sp.d.snd, a))
   /\ Check("C06", "destination shares differ", SendOk => \A a \in (Names(chk.obs, 2) \cup PairNames(chk.sp.d.rcv)) \ {KEPT} : SumWhere(chk.obs, 2, a) = RcvCredits(chk.sp.d.rcv, a))
   /\ Check("C06", "shares do not add up", SendOk => SumAmt(chk.obs) + KeptOf(chk.sp.d.rcv) = Need)
   /\ Check("C06", "allotment sum accepted/rejected wrongly",
